@@ -26,6 +26,7 @@ func runC09(c *Ctx) {
 	c.Clause("C09.5 per-datagram re-framing: wire offset = local offset + baseOffset, data taken from cryptoData[offset-lowest:]; baseOffset is the smallest CRYPTO offset of the popped frames and reaches BuildForDatagram")
 	c.NotCovered("that random splits sum to the whole (arithmetic of the random draws); multi-datagram continuity at run time")
 	c.Clause("C09.6 every store that takes bytes out of the CRYPTO write buffer advances writeOffset by exactly the bytes removed (or, in scrambled mode, cuts at end once writeOffset == end)")
+	c.Clause("C09.8 plannedInitialPayload registers every CRYPTO frame of a planned datagram with the Initial retransmission handler (per-iteration must-pass)")
 	c.Clause("C09.7 the scrambler's ECH cut ends inside the ClientHello (bounded by end)")
 	c.NotCovered("the upstream anti-DPI scrambler's remaining cut arithmetic (findSNIAndECH, cut ordering in initialCryptoStream.PopCryptoFrame)")
 
@@ -36,6 +37,7 @@ func runC09(c *Ctx) {
 	c.rule("C09.5", func() { c09Rebase(c) })
 	c.rule("C09.6", func() { c09OffsetAccounting(c) })
 	c.rule("C09.7", func() { c09CutBounds(c) })
+	c.rule("C09.8", func() { c09PlannedRegistered(c) })
 }
 
 func c09Flight(c *Ctx) {
@@ -631,13 +633,19 @@ func runC11(c *Ctx) {
 	c.Clause("C11.2 SuppressQUICTransportParameters: ID() evaluated once per parameter, GREASE routed through IsGREASEQTPID, order-preserving in-place filter; TransportParameterIDs suppresses first and folds GREASE through the same predicate; IsGREASEQTPID is id>=27 ∧ (id-27)%31==0")
 	c.Clause("C11.3 PopulateFromUQUIC stores the marshalled spec parameters as the override on every path; Marshal returns the override first")
 	c.Clause("C11.4 every built-in QUICID variable has a QUICID2Spec case")
-	c.NotCovered("byte equality with uTLS output; uniformity of the permutation; fingerprint identifier values")
+	c.Clause("C11.5 the suppress set is not modified while the list is filtered (duplicates, idempotence)")
+	c.Clause("C11.6 ShuffleQUICTransportParameters uses math/rand.Shuffle over the whole list with an element swap, or a Fisher–Yates loop drawing j from [0,i]")
+	c.Clause("C11.7 no function of this module calls the caching Len/Read of the spec's transport-parameter extension")
+	c.NotCovered("byte equality with uTLS output; the statistical quality of the permutation beyond the algorithm's shape; fingerprint identifier values")
 	c.NotCovered("effectiveness of per-dial randomisation for a reused spec value (see C02 known findings)")
 
 	c.rule("C11.1", func() { c11Order(c) })
 	c.rule("C11.2", func() { c11Suppress(c) })
 	c.rule("C11.3", func() { c11Override(c) })
 	c.rule("C11.4", func() { c11Table(c) })
+	c.rule("C11.5", func() { c11SetReadOnly(c) })
+	c.rule("C11.6", func() { c11Shuffle(c) })
+	c.rule("C11.7", func() { c11NoEarlyMarshal(c) })
 }
 
 func c11Order(c *Ctx) {
